@@ -2538,6 +2538,7 @@ EbErrorType decode_multiple_obu(EbDecHandle *dec_handle_ptr, uint8_t **data, siz
             BlockSize prev_sb_size          = dec_handle_ptr->seq_header.sb_size;
             uint16_t  prev_max_frame_width  = dec_handle_ptr->seq_header.max_frame_width;
             uint16_t  prev_max_frame_height = dec_handle_ptr->seq_header.max_frame_height;
+            EbBitDepthEnum prev_bit_depth   = dec_handle_ptr->seq_header.color_config.bit_depth;
 
             status = read_sequence_header_obu(&bs, &dec_handle_ptr->seq_header);
             if (status != EB_ErrorNone)
@@ -2547,7 +2548,8 @@ EbErrorType decode_multiple_obu(EbDecHandle *dec_handle_ptr, uint8_t **data, siz
             dec_handle_ptr->seq_header_done = 1;
             if (prev_sb_size != dec_handle_ptr->seq_header.sb_size ||
                 prev_max_frame_width != dec_handle_ptr->seq_header.max_frame_width ||
-                prev_max_frame_height != dec_handle_ptr->seq_header.max_frame_height) {
+                prev_max_frame_height != dec_handle_ptr->seq_header.max_frame_height ||
+                prev_bit_depth != dec_handle_ptr->seq_header.color_config.bit_depth) {
                 dec_handle_ptr->mem_init_done = 0;
             }
             break;
